@@ -57,7 +57,8 @@ SRC_KERNELS = {
     "C03": ["TheFittest_replace", "TheFittest_update", "termination_check", "get_remains_calls", "EA_fit", "EA_get_fitness"],
     "C05": ["TheFittest_replace", "TheFittest_update", "termination_check", "get_remains_calls", "EA_get_fitness"],
     "C06": ["flip_mutation", "binomialGA", "one_point_crossover", "two_point_crossover", "uniform_crossover",
-            "uniform_proportional_crossover", "uniform_rank_crossover", "empty_crossover"],
+            "uniform_proportional_crossover", "uniform_rank_crossover", "empty_crossover",
+            "random_sample", "check_for_value", "sattolo_shuffle", "random_weighted_sample", "binary_search_interval"],
     "C07": ["bounds_control", "binomial", "best_1", "rand_1", "rand_to_best1", "current_to_best_1", "best_2", "rand_2",
             "current_to_pbest_1_archive", "random_sample", "check_for_value", "sattolo_shuffle", "random_weighted_sample", "binary_search_interval"],
     "C08": ["get_levels_tree_from_i", "find_end_subtree_from_i", "find_id_args_from_i", "Tree_subtree_id", "Tree_subtree", "Tree_concat", "shrink_mutation"],
